@@ -12,8 +12,10 @@ import (
 	"go/token"
 	"go/types"
 	"sort"
+	"strings"
 
 	"golang.org/x/tools/go/packages"
+	"golang.org/x/tools/go/ssa"
 )
 
 func laCLI(c *Ctx, rule string) {
@@ -160,4 +162,39 @@ func typeutilCallee(info *types.Info, call *ast.CallExpr) types.Object {
 		return info.Uses[fun.Sel]
 	}
 	return nil
+}
+
+// laThriftLimits (C16, C04): page headers and the footer carry unbounded strings (statistics hold whole values, key/value
+// metadata, schema names). A thrift decoder on a read path that is configured with a message / frame size limit refuses
+// valid files beyond it. Reported: every store of a non-zero value into thrift.TConfiguration.MaxMessageSize /
+// MaxFrameSize in the universe.
+func laThriftLimits(c *Ctx, rule string) {
+	r, u := c.R, c.U
+	n := 0
+	for _, f := range u.Funcs {
+		if f.Synthetic != "" {
+			continue
+		}
+		for _, b := range f.Blocks {
+			for _, ins := range b.Instrs {
+				st, ok := ins.(*ssa.Store)
+				if !ok {
+					continue
+				}
+				fl := fieldOf(st.Addr)
+				if fl == nil || fl.Pkg() == nil || !strings.HasSuffix(fl.Pkg().Path(), "thrift/lib/go/thrift") {
+					continue
+				}
+				if fl.Name() != "MaxMessageSize" && fl.Name() != "MaxFrameSize" {
+					continue
+				}
+				if constIs(st.Val, 0) {
+					continue
+				}
+				n++
+				r.bad(rule, u.FnName(f)+" thrift "+fl.Name(), u.Pos(st.Pos()), "a thrift decoder is configured with "+fl.Name()+" = "+symExpr(st.Val, 0)+": page headers and the footer hold unbounded strings (statistics carry whole values), so valid files beyond that size are refused or not listed")
+			}
+		}
+	}
+	r.count(rule+"/thrift-limits", n)
 }
